@@ -129,3 +129,49 @@ package notation
 //@ ensures[C07.metadata-readback] result1 == nil ==> outcome.EnvelopeContent != nil && decPayloadErr(string(outcome.EnvelopeContent.Payload.Content)) == nil && result != nil
 //@ ensures[C07.metadata-readback] result1 == nil && decPayload(string(outcome.EnvelopeContent.Payload.Content)).TargetArtifact.Annotations != nil ==> result == decPayload(string(outcome.EnvelopeContent.Payload.Content)).TargetArtifact.Annotations
 //@ ensures[C07.metadata-readback] result1 == nil && decPayload(string(outcome.EnvelopeContent.Payload.Content)).TargetArtifact.Annotations == nil ==> fresh(result) && len(result) == 0
+
+//@ func getDescriptorFunc
+//@ props C07
+//@ modifies nothing
+//@ ensures[C07.generator] nonnil(result)
+
+//@ func validateContentMediaType
+//@ props C07
+//@ modifies nothing
+//@ ensures[C07.media-type] (result == nil) == (contentMediaType == "" || mimeParseErr(contentMediaType) == nil)
+
+//@ func validateSigMediaType
+//@ props C07 C11
+//@ modifies nothing
+//@ ensures[C07.sig-media-type,C11.sig-media-type] (result == nil) == (sigMediaType == jws.MediaTypeEnvelope || sigMediaType == cose.MediaTypeEnvelope)
+
+// ---- C12: thin no-panic contracts (generated by `govc sweep`, then completed by hand where a callee needs more) ----
+
+//@ func (NoApplicableTrustPolicyError).Error
+//@ props C12
+//@ modifies any
+
+//@ func (PushSignatureFailedError).Error
+//@ props C12
+//@ modifies any
+
+//@ func (SignatureRetrievalFailedError).Error
+//@ props C12
+//@ modifies any
+
+//@ func (UserMetadataVerificationFailedError).Error
+//@ props C12
+//@ modifies any
+
+//@ func (VerificationFailedError).Error
+//@ props C12
+//@ modifies any
+
+//@ func (VerificationInconclusiveError).Error
+//@ props C12
+//@ modifies any
+
+//@ func Sign
+//@ props C12
+//@ modifies any
+
